@@ -379,6 +379,13 @@ func runSigners(seed uint64, nOps int, outPath string) map[string]int {
 		cs.w = s.w
 		// module accounts that are no party to any message hold coins (collected fees, the community pool)
 		for _, m := range []string{"fee_collector", "distribution"} {
+			if m == "distribution" {
+				// through the community pool, so that the distribution module's own accounting agrees with its balance
+				if err := s.w.App.DistrKeeper.FundCommunityPool(s.w.Ctx, sdk.NewCoins(sdk.NewCoin("stake", pow2(150)), sdk.NewCoin("ausdc", pow2(150))), s.w.Users[0]); err != nil {
+					panic(err)
+				}
+				continue
+			}
 			if err := s.w.App.BankKeeper.SendCoins(s.w.Ctx, s.w.Users[0], authtypes.NewModuleAddress(m),
 				sdk.NewCoins(sdk.NewCoin("stake", pow2(150)), sdk.NewCoin("ausdc", pow2(150)), sdk.NewCoin("abtc", pow2(150)), sdk.NewCoin("ibc/ETH", pow2(150)), sdk.NewCoin("acanto", pow2(80)))); err != nil {
 				panic(err)
